@@ -388,8 +388,51 @@ fn strict_violations(data: &[u8]) -> Vec<&'static str> {
     if 1 + hl + pl != data.len() {
         v.push("accepted-with-trailing-bytes");
     }
-    let Some(fields) = mini::items(&data[1 + hl..1 + hl + pl]) else {
-        v.push("accepted-truncated");
+    let payload = &data[1 + hl..1 + hl + pl];
+    if data[0] == 4 {
+        // NODES: walked item by item.  The decoder is known to take every item behind the inner
+        // list *header* for a record (whatever length that header announces); that tolerance is
+        // outside the property, but everything it takes has to be a valid signed record.
+        let mut p = payload;
+        match mini::split(p) {
+            Some((false, h, l)) => {
+                if l > 8 {
+                    v.push("accepted-id-gt-8");
+                }
+                p = &p[h + l..];
+            }
+            _ => {
+                v.push("accepted-malformed-id");
+                return v;
+            }
+        }
+        match mini::split(p) {
+            Some((false, h, l)) => p = &p[h + l..],
+            _ => {
+                v.push("accepted-malformed-total");
+                return v;
+            }
+        }
+        match mini::split(p) {
+            Some((true, h, _)) => p = &p[h..],
+            _ => {
+                v.push("accepted-malformed-record-list");
+                return v;
+            }
+        }
+        while !p.is_empty() {
+            match mini::split(p) {
+                Some((true, h, l)) if record_valid(&p[..h + l]) => p = &p[h + l..],
+                _ => {
+                    v.push("accepted-invalid-record");
+                    break;
+                }
+            }
+        }
+        return v;
+    }
+    let Some(fields) = mini::items(payload) else {
+        v.push("accepted-malformed-fields");
         return v;
     };
     match fields.first() {
@@ -420,22 +463,6 @@ fn strict_violations(data: &[u8]) -> Vec<&'static str> {
                         v.push("accepted-distance-gt-256");
                     }
                 }
-            }
-        }
-        4 => {
-            // every item of the record list -- and every further item the decoder may have taken
-            // for a record -- has to be a valid signed record
-            let mut recs: Vec<&[u8]> = Vec::new();
-            if let Some(l) = fields.get(2) {
-                if let Some(items) = mini::items(l.payload) {
-                    recs.extend(items.iter().map(|i| i.whole));
-                }
-            }
-            for extra in fields.iter().skip(3) {
-                recs.push(extra.whole);
-            }
-            if recs.iter().any(|r| !record_valid(r)) {
-                v.push("accepted-invalid-record");
             }
         }
         _ => {}
